@@ -37,6 +37,52 @@ impl Reset for PassThrough64 {
     }
 }
 
+/// coefficient vectors shown to the observer hook of `verify_batch`, one entry per call
+static ZLOG: std::sync::Mutex<Vec<Vec<[u8; 32]>>> = std::sync::Mutex::new(Vec::new());
+
+fn z_observer(zs: &[curve25519_dalek::Scalar]) {
+    ZLOG.lock().unwrap().push(zs.iter().map(|z| z.to_bytes()).collect());
+}
+
+/// verify_batch with the coefficient observer installed: (result, the z vectors of the calls made, normally one)
+fn batch_observed(m: &[&[u8]], s: &[Signature], k: &[VerifyingKey]) -> (Result<(), SignatureError>, Vec<Vec<[u8; 32]>>) {
+    ZLOG.lock().unwrap().clear();
+    ed25519_dalek::verif::set_coefficient_observer(Some(z_observer));
+    let r = ed25519_dalek::verify_batch(m, s, k);
+    ed25519_dalek::verif::set_coefficient_observer(None);
+    let z = std::mem::take(&mut *ZLOG.lock().unwrap());
+    (r, z)
+}
+
+fn zfmt(z: &[Vec<[u8; 32]>]) -> String {
+    match z.len() {
+        0 => "~".into(),
+        1 => format!("[{}]", z[0].iter().map(|b| hex(b)).collect::<Vec<_>>().join(";")),
+        n => format!("calls{}", n),
+    }
+}
+
+fn batch_args(a: &A) -> Result<(Vec<Vec<u8>>, Vec<Signature>, Vec<VerifyingKey>), Vec<String>> {
+    let msgs: Vec<Vec<u8>> = a.list(0).into_iter().map(unhex).collect();
+    let sigs: Vec<Signature> = a
+        .list(1)
+        .into_iter()
+        .map(|t| {
+            let b: [u8; 64] = unhex(t).as_slice().try_into().unwrap_or_else(|_| panic!("ARG: sig len"));
+            Signature::from_bytes(&b)
+        })
+        .collect();
+    let mut keys = Vec::new();
+    for t in a.list(2) {
+        let b: [u8; 32] = unhex(t).as_slice().try_into().unwrap_or_else(|_| panic!("ARG: key len"));
+        match VerifyingKey::from_bytes(&b) {
+            Ok(k) => keys.push(k),
+            Err(_) => return Err(vec!["badkey".into()]),
+        }
+    }
+    Ok((msgs, sigs, keys))
+}
+
 fn res(r: Result<(), SignatureError>) -> String {
     match r {
         Ok(()) => "ok".into(),
@@ -48,8 +94,28 @@ fn sig_of(a: &A, i: usize) -> Signature {
     Signature::from_bytes(&a.b64(i))
 }
 
+/// key token: plain hex -> VerifyingKey::from_bytes; `t<hex>` -> TryFrom<&[u8]>; `n<hex>` -> bincode; `j<hex>` -> JSON
+/// array.  The key must behave the same whichever public constructor produced it.
 fn vk_of(a: &A, i: usize) -> Option<VerifyingKey> {
-    VerifyingKey::from_bytes(&a.b32(i)).ok()
+    let t = a.tok(i);
+    let (how, h) = match t.as_bytes().first() {
+        Some(b't') | Some(b'n') | Some(b'j') => (t.as_bytes()[0], &t[1..]),
+        _ => (b'f', t),
+    };
+    let b: [u8; 32] = unhex(h).as_slice().try_into().unwrap_or_else(|_| panic!("ARG: need 32 bytes"));
+    match how {
+        b't' => VerifyingKey::try_from(&b[..]).ok(),
+        b'n' => {
+            let mut p = 32u64.to_le_bytes().to_vec();
+            p.extend_from_slice(&b);
+            bincode::deserialize::<VerifyingKey>(&p).ok()
+        }
+        b'j' => {
+            let js = format!("[{}]", b.iter().map(|x| x.to_string()).collect::<Vec<_>>().join(","));
+            serde_json::from_str::<VerifyingKey>(&js).ok()
+        }
+        _ => VerifyingKey::from_bytes(&b).ok(),
+    }
 }
 
 fn sha_digest(msg: &[u8]) -> Sha512 {
@@ -275,5 +341,45 @@ pub fn register(m: &mut HashMap<&'static str, OpFn>) {
         let r1 = ed25519_dalek::verify_batch(&mrefs, &sigs, &keys);
         let r2 = ed25519_dalek::verify_batch(&mrefs, &sigs, &keys);
         vec![res(r1), res(r2)]
+    });
+    // batch verification with the coefficients z_i observed at the hook: msgs sigs keys -> result, [z_i]
+    m.insert("sig.batchz", |a| {
+        let (msgs, sigs, keys) = match batch_args(a) {
+            Ok(x) => x,
+            Err(e) => return e,
+        };
+        let mrefs: Vec<&[u8]> = msgs.iter().map(|m| m.as_slice()).collect();
+        let (r, z) = batch_observed(&mrefs, &sigs, &keys);
+        vec![res(r), zfmt(&z)]
+    });
+    // adaptive forgery attempt against the batch equation: msgs sigs keys i j k
+    //   run the batch, read the coefficients z at the hook, shift S_i += z_j*k and S_j -= z_i*k (which leaves
+    //   sum z_i S_i unchanged if z does not move), run the shifted batch.
+    //   -> result0, [z0], shifted sig i, shifted sig j, result1, [z1]
+    m.insert("sig.batchatk", |a| {
+        use curve25519_dalek::Scalar;
+        let (msgs, mut sigs, keys) = match batch_args(a) {
+            Ok(x) => x,
+            Err(e) => return e,
+        };
+        let (i, j) = (a.int(3) as usize, a.int(4) as usize);
+        let k = Option::<Scalar>::from(Scalar::from_canonical_bytes(a.b32(5))).unwrap_or_else(|| panic!("ARG: k"));
+        let mrefs: Vec<&[u8]> = msgs.iter().map(|m| m.as_slice()).collect();
+        let (r0, z0) = batch_observed(&mrefs, &sigs, &keys);
+        if z0.len() != 1 || z0[0].len() != sigs.len() || i >= sigs.len() || j >= sigs.len() || i == j {
+            return vec![res(r0), zfmt(&z0), "~".into(), "~".into(), "~".into(), "~".into()];
+        }
+        let sc = |b: &[u8; 32]| Scalar::from_bytes_mod_order(*b);
+        let (zi, zj) = (sc(&z0[0][i]), sc(&z0[0][j]));
+        let shift = |sig: &Signature, d: Scalar| {
+            let mut b = sig.to_bytes();
+            let s: [u8; 32] = b[32..].try_into().unwrap();
+            b[32..].copy_from_slice(&(sc(&s) + d).to_bytes());
+            Signature::from_bytes(&b)
+        };
+        sigs[i] = shift(&sigs[i], zj * k);
+        sigs[j] = shift(&sigs[j], -(zi * k));
+        let (r1, z1) = batch_observed(&mrefs, &sigs, &keys);
+        vec![res(r0), zfmt(&z0), hex(&sigs[i].to_bytes()), hex(&sigs[j].to_bytes()), res(r1), zfmt(&z1)]
     });
 }
